@@ -16,7 +16,8 @@ From TV Require Import Base.I32 Base.F32 Model.Ops Model.Expr Model.Lower Model.
 Open Scope Z_scope.
 
 Definition E_TIME_AHEAD : nat := 13.   (* strict mode: the script time is ahead of the statement's time *)
-Definition P_NOLABEL : nat := 14.      (* AstVm: "tried to jump to {} but this label did not exist" *)
+Definition P_NOLABEL : nat := 14.
+Definition E_NAN_CMP : nat := 15.      (* strict mode: a comparison in a condition has a NaN operand *)      (* AstVm: "tried to jump to {} but this label did not exist" *)
 
 Record pst := mkpst {
   p_mem : mem;
@@ -75,6 +76,34 @@ Section Prog.
     | _ => Panic P_TYPE
     end.
 
+  (* strict mode also rules out NaN operands of the comparisons in conditions (`unless (a < b)` is compiled
+     as `a >= b`; the property quantifies over non-NaN floats) *)
+  Definition notnan_b (v : value) : bool := match v with VFloat f => negb (fis_nan f) | _ => true end.
+  Fixpoint nonan_b (m : mem) (e : expr) : bool :=
+    match e with
+    | EBin a op b =>
+        match op with
+        | LogicAnd | LogicOr => nonan_b m a && nonan_b m b
+        | _ => match eval_e m a, eval_e m b with
+               | Ok av, Ok bv => notnan_b av && notnan_b bv
+               | _, _ => true
+               end
+        end
+    | EUn Not b => nonan_b m b
+    | _ => true
+    end.
+  Fixpoint nonan_tb (m : mem) (e : expr) : bool :=
+    match e with
+    | ETern c l r => nonan_b m c && nonan_tb m l && nonan_tb m r
+    | _ => true
+    end.
+  Definition stmt_nonan (s : sstmt) (m : mem) : bool :=
+    match s with
+    | SAssign _ _ e => nonan_tb m e
+    | SCondJmp _ (CExpr e) _ _ => nonan_b m e
+    | _ => true
+    end.
+
   (* one statement that is not a label: new memory, jump, logged call *)
   Definition sstep (s : sstmt) (m : mem) : outcome (mem * option (label * option Z) * option (Z * list value)) :=
     match s with
@@ -120,6 +149,7 @@ Section Prog.
             else
               let st1 := wait t st in
               if negb (runs dsel mask) then sblk rest Exec st1
+              else if strict && negb (stmt_nonan s (p_mem st1)) then Err E_NAN_CMP
               else
                 match sstep s (p_mem st1) with
                 | Ok (m', j, lg) =>
